@@ -23,8 +23,8 @@ SelectAccepts(c) ==
 (* part "decode": one declared media type with schema S (or S2 / the text schema) *)
 TInt == [type |-> "integer"]
 TStr == [type |-> "string"]
-Props == [pk |-> <<"l", "n", "ro", "s">>,
-          ps |-> <<[type |-> "array", items |-> TInt], TInt, [type |-> "string", readOnly |-> TRUE], TStr>>]
+Props == [pk |-> <<"l", "ls", "n", "ro", "s">>,
+          ps |-> <<[type |-> "array", items |-> TInt], [type |-> "array", items |-> TStr], TInt, [type |-> "string", readOnly |-> TRUE], TStr>>]
 S1 == [type |-> "object", required |-> <<"n", "ro">>] @@ Props     \* n and the read-only ro are required
 S2 == [type |-> "object", required |-> <<"ro">>] @@ Props          \* nothing the client may send is required
 TextSchema == [type |-> "string", minLength |-> 2]
